@@ -99,6 +99,14 @@ KINDS = {
 
 def build(case):
     """fresh iterables of the case (generators are single-use)"""
+    if case.get("share") and case["its"]:
+        # ONE iterator passed at every position (the grouper idiom map(f, it, it)): zip() pairs consecutive
+        # items, so the effective columns are case["its"]; `extra` items that cannot fill a row are discarded
+        cols = [[wrap(w, a) for a in xs] for xs, w in zip(case["its"], case["wraps"])]
+        n = min(len(c) for c in cols)
+        seq = [cols[j][i] for i in range(n) for j in range(len(cols))] + list(range(case.get("extra", 0)))
+        it = iter(seq)
+        return [it] * len(cols)
     return [KINDS[k]([wrap(w, a) for a in xs]) for xs, k, w in zip(case["its"], case["kinds"], case["wraps"])]
 
 
@@ -277,6 +285,12 @@ class MapPart(E2Prop):
     def corpus(self):
         cs = []
         big = 10**6 + 3
+        for c in (1, 2, 3, 5):
+            for n in (0, 1, 4, 5):
+                for extra in (0, 1):
+                    case = self.mk(c, [list(range(0, 2 * n, 2)), list(range(1, 2 * n + 1, 2))], kinds=["iter", "iter"])
+                    case["share"], case["extra"] = True, extra
+                    cs.append(case)
         for n in range(0, 9):
             for c in range(1, 11):
                 cs.append(self.mk(c, [range(n)]))
@@ -344,7 +358,14 @@ class MapPart(E2Prop):
         elif x < 0.45:
             fn["m"] = rng.choice([2, 3, 5, 7, 11, 13, 50])
             fn["r"] = rng.randrange(fn["m"])
-        return self.mk(c, its, fn, kinds, wraps, tmo=r() < 0.1, default_c=(c == 1 and r() < 0.3))
+        case = self.mk(c, its, fn, kinds, wraps, tmo=r() < 0.1, default_c=(c == 1 and r() < 0.3))
+        if 2 <= len(its) <= 3 and r() < 0.08:
+            n = min(len(x) for x in its)
+            case["its"] = [list(x[:n]) for x in its]
+            case["kinds"] = ["iter"] * len(its)
+            case["share"] = True
+            case["extra"] = rng.randrange(len(its))
+        return case
 
     # ---- model side
     @staticmethod
